@@ -296,6 +296,35 @@ func enumConstraintSets(tier string, yield func(fam string, p Prob) bool) bool {
 			}
 		}
 	}
+	// wu4: one >= constraint over 4 variables with every non-increasing weight vector over {1,2,3}
+	// (repeated weights included), in two sign patterns, every degree, with every subset of its
+	// variables fixed by units: parse-time removal of fixed literals reorders the remaining terms
+	for _, w := range weightVectors(4, 1, 3) {
+		if w[0] < w[1] || w[1] < w[2] || w[2] < w[3] {
+			continue
+		}
+		for _, signs := range [][]int{{1, 2, 3, 4}, {-1, 2, -3, 4}} {
+			for d := 1; d <= absSum(w); d++ {
+				c := Con{T: "ge", L: signs, W: w, K: d}
+				for code := 0; code < 81; code++ {
+					cs := cpCons(c)
+					x := code
+					for v := 1; v <= 4; v++ {
+						switch x % 3 {
+						case 1:
+							cs = append(cs, Con{T: "ge", L: []int{v}, W: []int{1}, K: 1})
+						case 2:
+							cs = append(cs, Con{T: "ge", L: []int{-v}, W: []int{1}, K: 1})
+						}
+						x /= 3
+					}
+					if !yield("wu4", Prob{Front: "pb", N: 4, Cs: cs}) {
+						return false
+					}
+				}
+			}
+		}
+	}
 	return true
 }
 
@@ -304,7 +333,7 @@ type c02 struct{}
 func (c02) ID() string    { return "C02" }
 func (c02) Level() string { return "exploration" }
 func (c02) Rule() string {
-	return "cases = constraint sets built through the public constructors: every single cardinality constructor call over 3 variables (AtLeast1/AtMost1/Exactly1 on every literal set, CardConstr with every degree -1..len+1) alone, with every unit, and every ordered pair; every single PB constructor call over 3 variables (PropClause/AtLeast/AtMost, GtEq/LtEq/Eq with every weight vector in [-2..2] and every degree -1..sum|w|+1) alone and with every unit; every ordered pair over 2 variables; pairs of >= constraints over 3 variables; one constraint with strictly decreasing coefficients with every subset of its variables fixed by units; seeded catalogues (VERIF_SEED) of 1500 clause/cardinality mixes and 1500 weighted-PB problems over 5..10 variables, each with all its one-edit neighbours. Each case runs once per heuristic choice list (<=1 deviation) and is judged against integer arithmetic on the constraints as written. Non-trivial = the parser did not decide the case alone (status Indet after parsing) or it decided Unsat."
+	return "cases = constraint sets built through the public constructors: every single cardinality constructor call over 3 variables (AtLeast1/AtMost1/Exactly1 on every literal set, CardConstr with every degree -1..len+1) alone, with every unit, and every ordered pair; every single PB constructor call over 3 variables (PropClause/AtLeast/AtMost, GtEq/LtEq/Eq with every weight vector in [-2..2] and every degree -1..sum|w|+1) alone and with every unit; every ordered pair over 2 variables; pairs of >= constraints over 3 variables; one constraint with strictly decreasing coefficients, and one with every non-increasing weight vector over {1,2,3} on 4 variables, with every subset of its variables fixed by units; seeded catalogues (VERIF_SEED) of 1500 clause/cardinality mixes and 1500 weighted-PB problems over 5..10 variables, each with all its one-edit neighbours. Each case runs once per heuristic choice list (<=1 deviation) and is judged against integer arithmetic on the constraints as written. Non-trivial = the parser did not decide the case alone (status Indet after parsing) or it decided Unsat."
 }
 func (c02) Assumptions() []string {
 	return []string{"truth-table / integer-arithmetic reference is correct", "coefficients outside [-3..3] and more than 5 variables are not covered"}
